@@ -386,6 +386,24 @@ def run(world, rep, tier, only=None):
         rep.ob("C20.j", site(csl, "old backup blocks released only when the new slots no longer name that group#%d" % i), bool(kept),
                "`%s` lies behind a comparison of fs->super->s_backup_bgs[] with old_last_bg: %s" % (n.text()[:40], kept[:2]))
 
+    # ------------------------------------------------------------------ C20.k what is released is the backup, block for block
+    # ext2fs_super_and_bgd_loc2() reports the number of blocks a group's superblock *and* descriptors take.
+    # clear_sparse_super2_last_group() releases the superblock by itself and the descriptors as a range: the length of
+    # that range is the reported number less the superblock, or the block behind the backup (the group's block bitmap,
+    # without flex_bg) is released with it.
+    rng = calls_to(csl, "ext2fs_unmark_block_bitmap_range2")
+    single = calls_to(csl, "ext2fs_unmark_block_bitmap2")
+    locs = calls_to(csl, "ext2fs_super_and_bgd_loc2")
+    numv = {T.path(T.strip(arg(l_, 5)).get("e")) for l_ in locs if isinstance(T.strip(arg(l_, 5)), dict) and T.strip(arg(l_, 5)).get("k") == "u"} - {None}
+    rep.floor("C20.k range release in clear_sparse_super2_last_group", len(rng), 1)
+    for i, n in enumerate(rng):
+        ln = arg(n, 2)
+        raw = T.path(ln) in numv
+        adjusted = any(m_.ev.get("o") in ("--", "-=") and T.path(m_.ev["lhs"]) in numv and n in csl.reach(csl.after(m_)) for m_ in csl.events("S")) or \
+            (isinstance(T.strip(ln), dict) and T.strip(ln).get("k") == "b" and T.strip(ln).get("o") == "-")
+        rep.ob("C20.k", site(csl, "descriptor range released without the block behind it#%d" % i), (not raw) or adjusted or not single,
+               "length `%s`: the count from ext2fs_super_and_bgd_loc2() is reduced by the superblock released separately: %s" % (T.pp(ln)[:20], adjusted))
+
     # ------------------------------------------------------------------ C20.f the backup search starts afresh for every block size
     # get_backup_sb() tries each block size in turn and, for each, walks the prescribed backup groups with the
     # ext2fs_list_backups() iterator.  The iterator state must be initialised inside the block-size loop: initialised
